@@ -184,16 +184,24 @@ def with_watchdog(fn, seconds):
         signal.signal(signal.SIGALRM, old)
 
 
-def cbi_platform(table, via_dash_d=False):
+def parse_defines(table):
+    from codebasin import preprocessor as pp
+
+    return [pp.DirectiveParser(pp.Lexer(define_line(m)).tokenize()).parse() for m in table]
+
+
+def cbi_platform(table, via_dash_d=False, nodes=None):
+    """nodes: already parsed #define directives (a parsed file is evaluated once
+    per platform and translation unit, so the same nodes are evaluated again and again)"""
     from codebasin import platform, preprocessor as pp
 
     p = platform.Platform("p", "/")
-    for m in table:
-        if via_dash_d:
+    if via_dash_d:
+        for m in table:
             macro = pp.macro_from_definition_string(dash_d(m))
             p.define(macro.name, macro)
-        else:
-            node = pp.DirectiveParser(pp.Lexer(define_line(m)).tokenize()).parse()
+    else:
+        for node in nodes if nodes is not None else parse_defines(table):
             node.evaluate_for_platform(platform=p, filename="x.c", state=None)
     return p
 
@@ -212,9 +220,16 @@ def cbi_expand(table, inv, via_dash_d=False, bound=20):
     from codebasin import preprocessor as pp
 
     def run():
-        p = cbi_platform(table, via_dash_d)
-        toks = pp.MacroExpander(p).expand(pp.Lexer(line_text(inv)).tokenize())
-        return [spell(t) for t in toks]
+        nodes = None if via_dash_d else parse_defines(table)
+        p = cbi_platform(table, via_dash_d, nodes)
+        toks = [spell(t) for t in pp.MacroExpander(p).expand(pp.Lexer(line_text(inv)).tokenize())]
+        if nodes is not None:
+            # a second platform / translation unit evaluates the very same parsed directives
+            p2 = cbi_platform(table, False, nodes)
+            toks2 = [spell(t) for t in pp.MacroExpander(p2).expand(pp.Lexer(line_text(inv)).tokenize())]
+            if toks2 != toks:
+                raise RuntimeError(f"the same parsed #define lines evaluated for a second platform expand differently: first {toks} then {toks2}")
+        return toks
 
     try:
         return ("ok", with_watchdog(run, bound))
@@ -319,6 +334,9 @@ def case_strategy():
         ident = st.sampled_from(list(params) + others + [name, "w", "z"] + (["__VA_ARGS__"] if variadic == "..." else [variadic[:-3]] if variadic else []))
         atom = st.one_of(ident, ident, num)
         units = [atom.map(lambda x: [x]), st.sampled_from(OPS).map(lambda x: [x])]
+        if params:
+            # a literal whose content is spelled like a parameter is not a parameter use
+            units.append(st.sampled_from(params).flatmap(lambda q: st.sampled_from([['"' + q + '"'], ["'" + q + "'"]])))
         # operands of ## are never the variadic parameter: pasting a token list that contains commas is
         # GNU comma-paste territory (gcc and clang accept it silently with their own semantics)
         vname = "__VA_ARGS__" if variadic == "..." else (variadic[:-3] if variadic else None)
@@ -354,7 +372,8 @@ def case_strategy():
     def case(draw):
         tab = draw(table())
         names = [m["name"] for m in tab]
-        atom = st.one_of(st.sampled_from(names + ["w", "q"]), num, st.sampled_from(["'x'", '"s t"', "+", "-", "<"]))
+        # arguments are often spelled like the parameters of the macro they are passed to (MAX(a, b))
+        atom = st.one_of(st.sampled_from(names + ["w", "q"]), num, st.sampled_from(["'x'", '"s t"', "+", "-", "<"]), st.sampled_from(PARAMS))
         arg = st.one_of(
             st.just([]),
             st.lists(atom, min_size=1, max_size=3),
@@ -500,7 +519,7 @@ def judge_batch(cases, workdir):
         if k == "timeout":
             out.append(("non-termination", gt, None))
         elif k == "exc":
-            out.append((f"exception:{v.split(':')[0]}", gt, v))
+            out.append(("second-evaluation-differs" if v.startswith("RuntimeError: the same parsed") else f"exception:{v.split(':')[0]}", gt, v))
         elif retok(v) != gt:
             out.append(("wrong-expansion", gt, v))
         else:
@@ -527,6 +546,8 @@ def minimise(table, inv, kind, workdir, rounds=8):
 
 
 def signature(kind, table, inv):
+    if kind == "second-evaluation-differs":
+        return kind
     return f"{kind}|" + ",".join(sorted(features(table, inv))) or "plain"
 
 
